@@ -2,6 +2,7 @@ package main
 
 import (
 	"context"
+	"errors"
 	"strings"
 	"sync"
 	"time"
@@ -17,6 +18,7 @@ type entry struct {
 	cmds [][]string
 	ro   bool // the connection was requested with the ReplicaOnly option
 	call int  // number of this connection call among those carrying user commands (0: none)
+	dead bool // the connection had been closed by the client when the call was made
 }
 
 type world struct {
@@ -31,6 +33,7 @@ type world struct {
 	closed  map[string]int
 	quiet   func(argv []string) bool // commands not to log (topology chatter)
 	onCall  func(k int)              // runs during the k-th user-command connection call
+	onClose func(addr string)        // the client closed a connection to addr
 }
 
 func newWorld() *world { return &world{closed: map[string]int{}} }
@@ -68,9 +71,18 @@ func (w *world) take() []entry {
 }
 
 type fnode struct {
-	w    *world
-	addr string
-	ro   bool
+	w      *world
+	addr   string
+	ro     bool
+	closed bool
+}
+
+var errFakeClosed = errors.New("verif: fake connection is closed")
+
+func (n *fnode) isClosed() bool {
+	n.w.mu.Lock()
+	defer n.w.mu.Unlock()
+	return n.closed
 }
 
 func (w *world) nodeFn() rueidis.VerifRoutingNodeFn {
@@ -100,7 +112,7 @@ func (n *fnode) Dial() error {
 }
 
 func (n *fnode) Do(ctx context.Context, cmd rueidis.Completed) rueidis.RedisResult {
-	e := n.w.record(entry{addr: n.addr, kind: "do", cmds: [][]string{argv(cmd)}, ro: n.ro})
+	e := n.w.record(entry{addr: n.addr, dead: n.isClosed(), kind: "do", cmds: [][]string{argv(cmd)}, ro: n.ro})
 	return n.answer(e, 0, ctx)
 }
 
@@ -109,7 +121,7 @@ func (n *fnode) DoMulti(ctx context.Context, multi ...rueidis.Completed) []rueid
 	for i, c := range multi {
 		cs[i] = argv(c)
 	}
-	e := n.w.record(entry{addr: n.addr, kind: "multi", cmds: cs, ro: n.ro})
+	e := n.w.record(entry{addr: n.addr, dead: n.isClosed(), kind: "multi", cmds: cs, ro: n.ro})
 	out := make([]rueidis.RedisResult, len(multi))
 	for i := range multi {
 		out[i] = n.answer(e, i, ctx)
@@ -118,7 +130,7 @@ func (n *fnode) DoMulti(ctx context.Context, multi ...rueidis.Completed) []rueid
 }
 
 func (n *fnode) DoCache(ctx context.Context, cmd rueidis.Cacheable, ttl time.Duration) rueidis.RedisResult {
-	e := n.w.record(entry{addr: n.addr, kind: "cache", cmds: [][]string{argv(rueidis.Completed(cmd))}, ro: n.ro})
+	e := n.w.record(entry{addr: n.addr, dead: n.isClosed(), kind: "cache", cmds: [][]string{argv(rueidis.Completed(cmd))}, ro: n.ro})
 	return n.answer(e, 0, ctx)
 }
 
@@ -127,7 +139,7 @@ func (n *fnode) DoMultiCache(ctx context.Context, multi ...rueidis.CacheableTTL)
 	for i, c := range multi {
 		cs[i] = argv(rueidis.Completed(c.Cmd))
 	}
-	e := n.w.record(entry{addr: n.addr, kind: "mcache", cmds: cs, ro: n.ro})
+	e := n.w.record(entry{addr: n.addr, dead: n.isClosed(), kind: "mcache", cmds: cs, ro: n.ro})
 	out := make([]rueidis.RedisResult, len(multi))
 	for i := range multi {
 		out[i] = n.answer(e, i, ctx)
@@ -153,6 +165,9 @@ func (n *fnode) Stream(ctx context.Context, multi ...rueidis.Completed) {
 }
 
 func (n *fnode) Err() error {
+	if n.isClosed() {
+		return errFakeClosed
+	}
 	if n.w.nodeErr != nil {
 		return n.w.nodeErr(n.addr)
 	}
@@ -162,7 +177,12 @@ func (n *fnode) Err() error {
 func (n *fnode) Close() {
 	n.w.mu.Lock()
 	n.w.closed[n.addr]++
+	n.closed = true
+	hook := n.w.onClose
 	n.w.mu.Unlock()
+	if hook != nil {
+		hook(n.addr)
+	}
 }
 
 func (n *fnode) AZ() string {
